@@ -92,6 +92,38 @@ def run_api(c):
         pb.cpu_count = REAL_CPU
 
 
+CLASS_IDX = {pb.SequentialBackend: 0, pb.ThreadingBackend: 1, pb.LokyBackend: 2, pb.MultiprocessingBackend: 3}
+
+
+def run_nested(c):
+    """{"mode":"nested","kind":k,"level":l}: <class k>(nesting_level=l).get_nested_backend() outside any context"""
+    b = KINDS[c["kind"]](nesting_level=c["level"])
+    nb, n = b.get_nested_backend()
+    return {"ok": [CLASS_IDX.get(type(nb), -1), nb.nesting_level, n]}
+
+
+def run_conf(c):
+    """{"mode":"conf","kind":"seq"|"thr","level":l,"n":n,"cpus":c}: <class>.configure(n_jobs=n); for threading also the
+    number of threads of the pool that _get_pool() then creates"""
+    pb.cpu_count = lambda: c["cpus"]
+    try:
+        b = KINDS[c["kind"]](nesting_level=c["level"])
+        try:
+            v = b.configure(n_jobs=c["n"], parallel=None)
+        except pb.FallbackToBackend as e:
+            return {"fallback": [CLASS_IDX.get(type(e.backend), -1), e.backend.nesting_level]}
+        except Exception as e:  # noqa
+            return {"raise": type(e).__name__}
+        r = {"ok": v}
+        if c["kind"] == "thr" and isinstance(v, int) and 1 < v <= 12:
+            pool = b._get_pool()
+            r["pool"] = len(pool._pool)
+            b.terminate()
+        return r
+    finally:
+        pb.cpu_count = REAL_CPU
+
+
 def run_cpu_child(c, wfd):
     import io
     os_mod = lctx.os
@@ -160,7 +192,7 @@ for line in sys.stdin:
         continue
     c = json.loads(line)
     try:
-        r = {"eff": run_eff, "api": run_api, "cpu": run_cpu}[c["mode"]](c)
+        r = {"eff": run_eff, "api": run_api, "cpu": run_cpu, "nested": run_nested, "conf": run_conf}[c["mode"]](c)
     except BaseException as e:
         r = {"harness_error": repr(e)}
     OUT.write(json.dumps(r) + "\n")
